@@ -298,7 +298,7 @@ func vForward(requestSide bool) {
 		respCT = []string{"", "text/event-stream", "application/grpc"}[verifChoose("resp.contentType", 3)]
 	}
 	vOutcome = func(int) (*http.Response, error) {
-		h := http.Header{"X-Backend": []string{"b"}}
+		h := http.Header{"X-Backend": []string{"b"}, "Vary": []string{"Origin"}}
 		if backendCE != "" {
 			h.Set("Content-Encoding", backendCE)
 		}
@@ -385,6 +385,14 @@ func vForward(requestSide bool) {
 	}
 	verifAssert(resp.StatusCode() == status, "client-gets-backend-status")
 	verifAssert(resp.HTTPHeader().Get("X-Backend") == "b", "client-gets-backend-headers")
+	// a header the proxy itself adds to (Vary, when it compresses) keeps the backend's values
+	keptVary := false
+	for _, v := range resp.HTTPHeader().Values("Vary") {
+		if v == "Origin" {
+			keptVary = true
+		}
+	}
+	verifAssert(keptVary, "client-gets-backend-headers")
 	got, _ := io.ReadAll(resp.GetPayload())
 	// the codings the client is told to undo: the backend's own, plus gzip last iff the proxy
 	// compressed - undoing them in reverse order must give back the backend's content
@@ -450,14 +458,25 @@ func verifC10_Pool() {
 	// constant clock): open once the last two recorded client requests contain a failure
 	breakerOpen := false
 	var recorded []bool
+	// service discovery may replace the server list while the first attempt of the first request
+	// is under way: every later attempt goes to a server of the list that is current then
+	replaced := hasRetry && verifBool("discoveryReplacesTheServerListDuringTheFirstAttempt")
+	newServer := &Server{URL: "http://10.0.0.2:8080"}
+	currentURL := "http://10.0.0.1:8080"
 	for k := 0; k < requests; k++ {
 		ctx, _, _ := vClientRequest([]byte{1, 2}, stream)
 		vNSends, vDeadline = 0, false
 		var outcomes [8]int // 0 success, 1 failure code, 2 network error, 3 timeout
+		var listAtAttempt [8]string
 		vOutcome = func(attempt int) (*http.Response, error) {
 			no := 3
 			if hasTimeout {
 				no = 4
+			}
+			listAtAttempt[attempt] = currentURL
+			if replaced && k == 0 && attempt == 0 {
+				sp.createLoadBalancer([]*Server{newServer})
+				currentURL = newServer.URL
 			}
 			o := verifChoose("attemptOutcome", no)
 			outcomes[attempt] = o
@@ -487,6 +506,14 @@ func verifC10_Pool() {
 			continue
 		}
 		verifAssert(vNSends >= 1, "at-least-one-attempt")
+		for a := 0; a < vNSends; a++ {
+			u := vSends[a].url
+			want := listAtAttempt[a]
+			verifAssert(len(u) >= len(want) && u[:len(want)] == want, "every-attempt-goes-to-a-server-of-the-current-list")
+			if a > 0 && replaced && k == 0 {
+				verifCover("retry-after-the-list-was-replaced")
+			}
+		}
 		if result != "" {
 			failedRequests++
 		}
